@@ -16,6 +16,7 @@ HashQueries == {"Hash", "IdentHash", "Base32Address", "Base64", "Equals", "Equal
 VerifyQueries == {"Verify", "VerifySignature"}
 ValidateQueries == {"Validate", "IsValid", "ValidateStructure"}
 TimeQueries == {"ExpirationTime", "PublishedTime", "ExpiresTime", "Time", "Date", "IsExpired", "NewestExpiration", "OldestExpiration", "Expiration", "Published"}
+HasAgain(rr) == "again" \in DOMAIN rr /\ rr.again.done
 JReadOne(fn, in, rr, e) ==
   LET ref == RefParse(fn, in, e)        \* [known, ok, consumed, short]
       acc == rr.ok
@@ -44,6 +45,12 @@ JReadOne(fn, in, rr, e) ==
        \A i \in 1..Len(rr.append_unsafe) : rr.append_unsafe[i] \notin {"Bytes", "Data", "Serialize"}, cls),
      R("C08", "appends_to_serialisation_leave_input_alone", "append_unsafe" \in DOMAIN rr /\ fn \notin ViewReaders,
        \A i \in 1..Len(rr.append_unsafe) : rr.append_unsafe[i] \notin {"Bytes", "Data", "Serialize"}, cls),
+     \* the value returned is the caller's: after the caller has overwritten everything it can reach from it, parsing the same bytes again
+     \* gives the same value again (nothing handed out is shared with what a later call hands out)
+     R("C01", "later_parse_unaffected_by_edits_to_an_earlier_result", acc /\ HasAgain(rr), rr.again.same \/ rr.again.what # "serialisation", cls),
+     R("C02", "later_parse_exposes_the_same_fields_after_edits_to_an_earlier_result", acc /\ HasAgain(rr), rr.again.same, cls),
+     R("C08", "parsed_values_share_no_memory_with_each_other", acc /\ HasAgain(rr), rr.again.same, cls),
+     R("C19", "entry_point_gives_the_same_value_after_edits_to_an_earlier_result", acc /\ HasAgain(rr), rr.again.same, cls),
      R("C03", "rem_is_suffix", acc /\ rr.hasrem, IsSuffix(rr.rem, in), cls),
      R("C03", "consumes_declared_extent", acc /\ rr.hasrem /\ ref.known /\ ref.ok,
        consumed = ref.consumed, cls),
